@@ -49,9 +49,11 @@ def build_schedule(u):
     ver = u.choice(["v1", "v2c", "v3", "v3d"])
     driver = u.choice(["sync", "sync", "async"])
     kind = u.choice(["reqid", "reqid", "community_or_msgid"])
+    if ver == "v3" and u.below(3) == 0:
+        kind = "report_stale"
     calls = [build_call(u, T) for _ in range(u.range(1, 3))]
     if ver == "v3d":
-        kind = u.choice(["foreign_engine", "foreign_engine", "reqid", "community_or_msgid"])
+        kind = u.choice(["foreign_engine", "foreign_engine", "reqid", "community_or_msgid", "report_stale"])
         calls = discovery_first(calls)
     return {"T": T, "ver": ver, "driver": driver, "calls": calls, "stray_kind": kind}
 
@@ -145,6 +147,9 @@ def run_schedule(args):
             return ag.build_report(cfg, req, cfg.engine_id, 5, 1000, msg_id=(req["msg_id"] ^ 0x55) & 0x7FFFFFFF)
         if kind == "reply":
             return ag.build_reply(cfg, req, vb)
+        if sched["stray_kind"] == "report_stale":
+            # a Report of this agent for this user whose msgID is not the pending request's (a late network duplicate)
+            return ag.build_report(cfg, req, cfg.engine_id, req["boots"], req["time"], user=cfg.user.encode(), msg_id=(req["msg_id"] ^ 0x55) & 0x7FFFFFFF)
         if sched["stray_kind"] == "reqid":
             return ag.build_reply(cfg, req, vb, request_id=(req["request_id"] ^ 0x1234) & 0x7FFFFFFF)
         if cfg.version == "v3":
@@ -327,7 +332,7 @@ def run(rep, tier):
     from vlib import build
     pkg = build.ensure_ext()
     rep.rule = ("Hypothesis-generated batch of arrival schedules (T in {0.15,0.25,0.4}s; 0..8 non-matching datagrams with gaps 0.25T..0.8T; "
-                "matching reply none / early (0.2T..0.7T) / late (1.3T..2T)) x sync/async x v1/v2c/v3/v3 with engine-id discovery (first call = refresh() on a session without engine id; strays there are Reports of a foreign engine for another msgID), run in 16 worker processes. "
+                "matching reply none / early (0.2T..0.7T) / late (1.3T..2T)) x sync/async x v1/v2c/v3/v3 with engine-id discovery (first call = refresh() on a session without engine id; strays there are Reports of a foreign engine for another msgID; v3 strays are also stale Reports of the agent itself with another msgID), run in 16 worker processes. "
                 "Each schedule is 1..3 consecutive calls on one session. Non-trivial = a call with >=2 strays and no timely matching reply, or a multi-call schedule; distinct by schedule.")
     rep.assumptions = ["wall-clock oracle with slack max(0.12s, 0.5T); an overrun must reproduce in two isolated re-runs to be reported",
                        "loopback latency is negligible against the 150..400 ms timeouts"]
